@@ -1413,7 +1413,10 @@ class URL:
 
         # scheme is in uses_authority as uses_authority is a superset of uses_relative
         if (join_netloc := url._netloc) and scheme in USES_AUTHORITY:
-            return from_parts(scheme, join_netloc, url._path, url._query, url._fragment)
+            path = url._path
+            # RFC 3986 5.2.2: T.path = remove_dot_segments(R.path)
+            path = normalize_path(path) if "." in path else path
+            return from_parts(scheme, join_netloc, path, url._query, url._fragment)
 
         orig_path = self._path
         if join_path := url._path:
